@@ -65,6 +65,11 @@ func (m *c11) lossWithin(a, b int) bool {
 		if e.Kind == sim.EvConnClose || e.Kind == sim.EvConnBreak || e.Kind == sim.EvYield && e.Str == "offline.enter" {
 			return true
 		}
+		// a Write which fails within the interval is how a loss that happened
+		// earlier (the remote end closed unnoticed) becomes known
+		if e.Kind == sim.EvWriteRet && e.Err != nil {
+			return true
+		}
 	}
 	return false
 }
